@@ -253,7 +253,7 @@ PropSpec {
     quick_runs: 6000,
     thorough_runs: 150_000,
     default_seed: 1717,
-    rule: "C01's space (3-4 peers in half of the plain runs, a third with desync detection on, rollback and lockstep, spectators), plus a fifth of the runs with run-time delay changes (C11's plans) and a fifth with a really diverging game and desync detection (C09's plans); every plan is executed three times in one process with the same API calls, clock readings and per-link packet fates but different hash keys (single key vs a fresh key per map) and different handshake random numbers; request lists, final frames, per-address event sequences with their timestamps and the executed traffic schedule must be identical. Non-trivial = >= 1 rollback and >= 3 nodes or >= 3 players; distinct = distinct executed-schedule hash; two sevenths of the runs are C07's and C06's plans (a player dies or is disconnected while the host serves a spectator)",
+    rule: "C01's space (3-4 peers in half of the plain runs, a third with desync detection on, rollback and lockstep, spectators), plus a seventh of the runs with run-time delay changes (C11's plans) and a seventh with a really diverging game and desync detection (C09's plans); every plan is executed three times in one process with the same API calls, clock readings and per-link packet fates but different hash keys (single key vs a fresh key per map) and different handshake random numbers; request lists, final frames, per-address event sequences with their timestamps and the executed traffic schedule must be identical. Non-trivial = >= 1 rollback and >= 3 nodes or >= 3 players; distinct = distinct executed-schedule hash; two sevenths of the runs are C07's and C06's plans (a player dies or is disconnected while the host serves a spectator)",
     nontrivial: nt_c17,
     required_probes: &["twin_runs", "rollbacks", "spectator_frames"],
     assumptions: BASE_ASSUME,
